@@ -50,11 +50,10 @@ func extractURL(req *http.Request) *url.URL {
 		}
 	}
 
+	// the forwarded uri consists of the path and the query. So, if it is used, then as a whole: the query of
+	// the actual request is not taken over, if the forwarded uri has none.
 	if len(rawPath) == 0 {
 		rawPath = escapedPath(req.URL)
-	}
-
-	if len(query) == 0 {
 		query = req.URL.RawQuery
 	}
 
